@@ -158,6 +158,10 @@ func (ev *c01env) interp() *e6Interp {
 	return &e6Interp{PureCall: func(f *types.Func) bool {
 		return objIs(f, bfPkg, "Result", "ConfigIndex") || objIs(f, "bytes", "", "Equal") || objIs(f, "bytes", "", "Compare")
 	}, Inline: func(f *ssa.Function) bool {
+		// a comparison moved into a predicate of the package (sameConfig(a, b)): evaluated in place
+		if isPurePredicate(f, bfPkg) {
+			return true
+		}
 		// line-writing helpers of the writer: loop-free methods of Writer that only produce output
 		if f.Pkg == nil || f.Pkg.Pkg.Path() != bfPkg || f.Signature.Recv() == nil || recvName(f.Signature.Recv().Type()) != "Writer" || len(naturalLoops(f)) > 0 || len(f.Blocks) > 3 {
 			return false
